@@ -50,6 +50,8 @@ pub struct FragSource {
     pub reads: u64,
     pub pendings: u64,
     just_pended: bool,
+    /// Fail once, instead of the read with this index, with this error kind.
+    pub err_at: Option<(u64, io::ErrorKind)>,
 }
 
 impl FragSource {
@@ -75,6 +77,7 @@ impl FragSource {
             reads: 0,
             pendings: 0,
             just_pended: false,
+            err_at: None,
         }
     }
     pub fn plain(data: Vec<u8>) -> Self {
@@ -139,6 +142,12 @@ impl AsyncRead for FragSource {
         let left = me.data.len().saturating_sub(me.pos);
         if left == 0 || buf.remaining() == 0 {
             return Poll::Ready(Ok(()));
+        }
+        if let Some((k, kind)) = me.err_at {
+            if k == me.reads {
+                me.err_at = None;
+                return Poll::Ready(Err(io::Error::new(kind, "injected source read error")));
+            }
         }
         let n = me.next_size().min(left).min(buf.remaining());
         buf.put_slice(&me.data[me.pos..me.pos + n]);
